@@ -13,6 +13,7 @@ from typing import Tuple
 from jsonpath_rfc9535.function_extensions.filter_function import ExpressionType
 from jsonpath_rfc9535.function_extensions.filter_function import FilterFunction
 
+from .exceptions import JSONPathIndexError
 from .exceptions import JSONPathSyntaxError
 from .exceptions import JSONPathTypeError
 from .filter_expressions import BooleanLiteral
@@ -194,6 +195,13 @@ class Parser:
 
         return ()
 
+    def _index_from_token(self, token: Token) -> int:
+        try:
+            return int(token.value)
+        except ValueError as err:
+            # More digits than the interpreter's integer string conversion limit.
+            raise JSONPathIndexError("index out of range", token=token) from err
+
     def parse_slice(self, stream: TokenStream) -> SliceSelector:
         """Parse a slice selector."""
         tok = stream.current
@@ -212,7 +220,7 @@ class Parser:
 
         # 1: or :
         if _maybe_index(stream.current):
-            start = int(stream.current.value)
+            start = self._index_from_token(stream.current)
             stream.next_token()
 
         stream.expect(TokenType.COLON)
@@ -220,7 +228,7 @@ class Parser:
 
         # 1 or 1: or : or ?
         if _maybe_index(stream.current):
-            stop = int(stream.current.value)
+            stop = self._index_from_token(stream.current)
             stream.next_token()
             if stream.current.type_ == TokenType.COLON:
                 stream.next_token()
@@ -230,7 +238,7 @@ class Parser:
 
         # 1 or ?
         if _maybe_index(stream.current):
-            step = int(stream.current.value)
+            step = self._index_from_token(stream.current)
             stream.next_token()
 
         stream.push(stream.current)
@@ -264,7 +272,7 @@ class Parser:
                         IndexSelector(
                             env=self.env,
                             token=stream.current,
-                            index=int(stream.current.value),
+                            index=self._index_from_token(stream.current),
                         )
                     )
             elif stream.current.type_ in (
